@@ -11,6 +11,7 @@ import (
 	"verifharness/drv/c05"
 	"verifharness/drv/c06"
 	"verifharness/drv/c07"
+	"verifharness/drv/c08"
 	"verifharness/drv/c11"
 	"verifharness/drv/c14"
 	"verifharness/drv/c15"
@@ -71,6 +72,8 @@ func main() {
 		c18.Run(os.Args[2], os.Args[3])
 	case "c07":
 		c07.Run(os.Args[2], os.Args[3])
+	case "c08":
+		c08.Run(os.Args[2], os.Args[3])
 	case "c19x":
 		a := os.Args
 		c19.Explicit(a[2], a[3], atoi(a[4]), atoi(a[5]), atoi(a[6]), a[7] == "1")
